@@ -118,7 +118,7 @@ def check_model(rep, prog, tier='quick', only=None):
              'a read that warms the offset cache at the start / middle / end or none: every mutator (delete, truncate, resize, prepend, append, insert, '
              'split, splice, dup, copy, merge) with every offset / size in and just outside the range leaves size and content - read from the structures, '
              'through extract(0,-1) and through read() at every offset - equal to the same operation on a Python list, or, when it reports an error, '
-             'unchanged; every reader (size_linear, peek, extract, iovec, compare, equal, match, scan) returns what the list gives; no access outside an '
+             'unchanged; every reader (size_linear, peek, extract, iovec, compare, equal, match, scan, and find_va for words of 2 and 3 octets over a two-letter alphabet in every content of the block) returns what the list gives; no access outside an '
              'area, no use of a freed segment, no cycle')
     N = 5 if tier == 'quick' else 6
     data = [0x10 + i for i in range(N)]
@@ -354,8 +354,8 @@ def check_model(rep, prog, tier='quick', only=None):
                         if r != 0:
                             return 'extract of a range inside the block fails' if (nm and nm[1] > 0) else None
                         if nm is None:
-                            if size == -1:
-                                return None          # "up to the end" from beyond the end: nothing to copy
+                            if size in (-1, 0):
+                                return None          # "up to the end" from beyond the end, or zero octets: nothing is copied, either answer fits the model
                             return 'extract out of range succeeds'
                         got = [m.mem.get((reg, i)) for i in range(nm[1])]
                         if got != data[nm[0]:nm[0] + nm[1]]:
@@ -430,5 +430,44 @@ def check_model(rep, prog, tier='quick', only=None):
                         elif r != 0 or eo['off'] != idx:
                             return 'scan for %02x from %d returns %r with offset %r, the model finds it at %d' % (word, start, r, eo['off'], idx)
                     guarded('ubuf_block_scan', '%s,start=%d,word=%02x' % (tag, start, word), fscan)
+    # find: multi-octet words over a two-letter alphabet (false candidates, words across segment boundaries)
+    if 'ubuf_block_find_va' not in H.funcs or not H.funcs['ubuf_block_find_va'].blocks:
+        raise facts.AnalysisBroken('anchor vanished: ubuf_block_find_va')
+    A, B = 0x2a, 0x2b
+    NF = 5 if tier == 'quick' else 6
+    pats = [list(t) for t in itertools.product((A, B), repeat=NF)]
+    if tier == 'quick':
+        pats = pats[1::3]
+    fsegl = list(comps(NF))
+    if only is not None:
+        fsegl = [x for i, x in enumerate(fsegl) if i in only]
+    for segs in fsegl:
+        if tier == 'quick' and len(segs) == 3 and segs[1] > 2:
+            continue
+        for pat in pats:
+            for wl in (2, 3):
+                for word in itertools.product((A, B), repeat=wl):
+                    word = list(word)
+                    for start in range(0, NF + 1):
+                        if tier == 'quick' and start not in (0, 1):
+                            continue
+                        def ffind(segs=segs, pat=pat, word=word, start=start):
+                            m = ctx.machine()
+                            h = m.build(cut(pat, segs))
+                            po, eo = ctx.out(m, 'off', start)
+                            r = ctx.call(m, 'ubuf_block_find_va', [h, po, len(word), m.new_valist(word)])
+                            idx = next((i for i in range(start, NF - len(word) + 1) if pat[i:i + len(word)] == word), None)
+                            if idx is not None:
+                                if r != 0 or eo['off'] != idx:
+                                    return 'find %s in %s from %d returns %r with offset %r, the model finds it at %d' % (fmt(word), fmt(pat), start, r, eo['off'], idx)
+                                return None
+                            # not found: failure; the offset is the first candidate that runs into the end, or the size
+                            # ("first candidate if there aren't enough octets": the first occurrence of the word's first octet there)
+                            cand = next((i for i in range(max(start, NF - len(word) + 1), NF) if pat[i] == word[0]), NF)
+                            if r == 0 or eo['off'] != cand:
+                                return 'find for an absent word %s in %s from %d returns %r with offset %r (expected failure, offset %d)' % (
+                                    fmt(word), fmt(pat), start, r, eo['off'], cand)
+                        guarded('ubuf_block_find_va', 'segs=%s,data=%s,word=%s,start=%d' % ('+'.join(map(str, segs)), ''.join('ab'[x - A] for x in pat),
+                                                                                           ''.join('ab'[x - A] for x in word), start), ffind)
     rep.tables['R-model'] = {'operations_checked': counts['runs'], 'interpreted_calls': ctx.runs, 'block_size': N, 'segmentations': len(segl)}
     return nseg_all
